@@ -2,7 +2,7 @@
    run (compile q) sn = the numbers of the live documents selected by sem q, assembled from the
    node contracts (leaf: SearchersProofsLeaf/Snap; conjunction; slice disjunction; boolean). *)
 From Coq Require Import ZArith List Bool Lia Arith.
-From Bluge Require Import Base.Res Gen.ParamsSearch Search.Numeric Search.Postings Search.Searchers Search.Semantics
+From Bluge Require Import Base.Res Gen.ParamsSearch Search.Numeric Search.Postings Search.Searchers Search.Semantics Search.SearchersProofs
   Search.SearchersProofsBase Search.SearchersProofsConj Search.SearchersProofsDisj Search.SearchersProofsBool
   Search.SearchersProofsLeaf Search.SearchersProofsSnap.
 Import ListNotations.
@@ -666,4 +666,336 @@ Proof.
         specialize (Hr ltac:(apply in_map_iff; exists (x, d); split; [reflexivity|exact Hin])).
         pose proof (total_docs_nonneg sn). lia.
       * rewrite (flat_S_live sn musts shoulds nots ms x d Hin Hms Hne). exact Hs.
+Qed.
+
+(* ---------- search_exact for boolean queries over term clauses ---------- *)
+
+Lemma fuel_ok_loop_fuel : forall sn W, fuel_ok sn W (loop_fuel sn W).
+Proof.
+  intros sn W. unfold fuel_ok, loop_fuel, conj_fuel.
+  pose proof (total_docs_nonneg sn) as Hn.
+  set (k := Z.to_nat (total_docs sn)). assert (Hk : total_docs sn = Z.of_nat k) by (unfold k; lia). rewrite Hk.
+  replace (Z.to_nat ((Z.of_nat k + 2) * ((Z.of_nat W + 3) * (Z.of_nat W + 3)))) with ((k + 2) * ((W + 3) * (W + 3)))%nat by lia.
+  rewrite ?Nat2Z.id. split; [nia|]. intros len Hlen. nia.
+Qed.
+
+Lemma nth_error_map_inv {A B} (g : A -> B) l i b : nth_error (map g l) i = Some b -> exists a, nth_error l i = Some a /\ b = g a.
+Proof.
+  revert i. induction l as [| a l IH]; intros [| i] H; simpl in *; try discriminate.
+  - inversion H. eauto.
+  - apply IH. exact H.
+Qed.
+
+Lemma tsearchers_fresh : forall sn l i c S, wf_sn sn ->
+  nth_error (tsearchers sn l) i = Some c -> nth_error (tdenots sn l) i = Some S ->
+  bounded (total_docs sn) S /\ TInv sn c S 0.
+Proof.
+  intros sn l i c S Hwf Hc HS. unfold tsearchers in Hc. unfold tdenots in HS.
+  apply nth_error_map_inv in Hc. destruct Hc as [ft [Hft ->]].
+  apply nth_error_map_inv in HS. destruct HS as [ft' [Hft' ->]]. rewrite Hft in Hft'. inversion Hft'; subst ft'.
+  split; [intros x Hx; eapply term_S_bounded; eauto|].
+  unfold TInv, term_searcher. eexists _, _, _. split; [reflexivity|]. apply mk_pit_inv. exact Hwf.
+Qed.
+
+Lemma conj_S_bounded : forall sn l, l <> [] -> bounded (total_docs sn) (conj_S (tdenots sn l)).
+Proof.
+  intros sn [| a l] Hne x Hx; [congruence|]. unfold conj_S, tdenots in Hx. cbn [map forallb] in Hx.
+  apply andb_prop in Hx. destruct Hx as [Hx _]. eapply term_S_bounded; eauto.
+Qed.
+
+Lemma disj_S_bounded : forall sn l k, bounded (total_docs sn) (disj_S (tdenots sn l) k).
+Proof.
+  intros sn l k x Hx. unfold disj_S in Hx. apply Z.leb_le in Hx.
+  assert (Hpos : (0 < count_true (tdenots sn l) x)%nat) by lia. clear Hx.
+  unfold count_true, tdenots in Hpos. induction l as [| a l IH]; simpl in Hpos; [lia|].
+  destruct (term_S sn (fst a) (snd a) x) eqn:E; [eapply term_S_bounded; eauto|apply IH; exact Hpos].
+Qed.
+
+(* draining the compiled boolean, whatever searcher serves the must clauses *)
+Lemma run_flat_core : forall sn musts shoulds nots ms bm,
+  wf_sn sn -> 0 <= ms -> (musts <> [] \/ shoulds <> []) ->
+  let bs := match shoulds with [] => None | _ => Some (mk_disj_slice (tsearchers sn shoulds) ms) end in
+  let bn := match nots with [] => None | _ => Some (mk_disj_slice (tsearchers sn nots) 1) end in
+  let W := swidth (mk_bool bm bs bn) in
+  opt_new searcher (K2Inv sn W) (total_docs sn) bm (flat_Sm sn musts) ->
+  run_loop (loop_fuel sn W) (depth_fuel (flatq musts shoulds nots ms)) (Datatypes.S (Z.to_nat (total_docs sn))) (mk_bool bm bs bn) [] =
+  Ok (sem_numbers (flatq musts shoulds nots ms) sn).
+Proof.
+  intros sn musts shoulds nots ms bm Hwf Hms Hne bs bn W Hbm.
+  pose proof (fuel_ok_loop_fuel sn W) as Hfuel.
+  rewrite <- (sem_numbers_members sn musts shoulds nots ms Hms Hne).
+  assert (Hdf : exists f, depth_fuel (flatq musts shoulds nots ms) = Datatypes.S (Datatypes.S (Datatypes.S f))).
+  { unfold depth_fuel. exists (4 * qsize (flatq musts shoulds nots ms) + 5)%nat. lia. }
+  destruct Hdf as [f Hdf]. rewrite Hdf. unfold mk_bool.
+  rewrite (run_loop_bool sn W (loop_fuel sn W) Hfuel (flat_Sm sn musts) (flat_Ss sn shoulds ms) (flat_Sn sn nots) ms) with (lo := 0).
+  - reflexivity.
+  - (* the denotation lives in [0, N) *)
+    intros x Hx. destruct (prim_S (flat_Sm sn musts) (flat_Ss sn shoulds ms) x) eqn:Ep.
+    + unfold prim_S in Ep. destruct musts as [| m0 mr]; cbn [flat_Sm] in Ep.
+      * destruct shoulds as [| s0 sr]; cbn [flat_Ss opt_S] in Ep; [discriminate|]. eapply disj_S_bounded; eauto.
+      * eapply conj_S_bounded; [|exact Ep]. discriminate.
+    + rewrite (bool_S_prim _ _ _ _ _ Ep) in Hx. discriminate.
+  - (* the compiled searcher is fresh *)
+    right. split; [|reflexivity]. unfold bool_fresh. cbn [b_init b_done b_cm b_cs b_cmn b_must b_should b_mustnot].
+    split; [reflexivity|]. split; [reflexivity|]. split; [reflexivity|]. split; [reflexivity|]. split; [reflexivity|].
+    assert (Hdisj : forall l k, l <> [] ->
+              opt_new searcher (K2Inv sn W) (total_docs sn) (Some (mk_disj_slice (tsearchers sn l) k)) (Some (disj_S (tdenots sn l) k))).
+    { intros l k Hl. unfold opt_new. split; [apply disj_S_bounded|]. split; [|exact I]. split; [lia|]. right.
+      eexists _, (tdenots sn l), k. split; [reflexivity|]. split; [|intros x; reflexivity].
+      right. split; [|reflexivity]. unfold dsl_fresh. cbn [ds_init ds_min ds_s]. split; [reflexivity|]. split; [reflexivity|].
+      split; [unfold tsearchers, tdenots; rewrite !map_length; reflexivity|].
+      intros i c S Hc HS. eapply tsearchers_fresh; eauto. }
+    split; [exact Hbm|]. split; [|split; [|split]].
+    + unfold bs, flat_Ss. destruct shoulds as [| s0 sr]; [exact I|]. apply Hdisj. discriminate.
+    + unfold bn, flat_Sn. destruct nots as [| n0 nr]; [exact I|]. apply Hdisj. discriminate.
+    + unfold bs. destruct shoulds; [exact I|reflexivity].
+    + unfold flat_Sm, flat_Ss. destruct Hne as [H|H]; [left|right]; destruct musts, shoulds; congruence.
+  - lia.
+  - pose proof (total_docs_nonneg sn). lia.
+Qed.
+
+Theorem search_exact_flat : forall sn musts shoulds nots ms,
+  wf_sn sn -> 0 <= ms -> (musts <> [] \/ shoulds <> []) ->
+  (length shoulds <= 10)%nat -> (length nots <= 10)%nat ->
+  run sn copts_plain (flatq musts shoulds nots ms) = Ok (sem_numbers (flatq musts shoulds nots ms) sn).
+Proof.
+  intros sn musts shoulds nots ms Hwf Hms Hne Hls Hln.
+  unfold run. rewrite (compile_flat sn musts shoulds nots ms Hls Hln Hne). cbn [rbind].
+  apply run_flat_core; auto.
+  set (bm := match musts with [] => None | _ => Some (mk_conj (tsearchers sn musts)) end).
+  set (W := swidth _).
+  assert (HW : (length musts <= W)%nat).
+  { unfold W, mk_bool, bm. cbn [swidth]. destruct musts as [| m0 mr]; [simpl; lia|].
+    unfold mk_conj. cbn [swidth]. unfold tsearchers. rewrite map_length. lia. }
+  unfold bm, flat_Sm. destruct musts as [| m0 mr]; [exact I|]. unfold opt_new. split; [apply conj_S_bounded; discriminate|].
+  split; [|unfold narrow, mk_conj; cbn [cj_s]; unfold tsearchers; rewrite map_length; exact HW]. split; [lia|]. left.
+  eexists _, (tdenots sn (m0 :: mr)). split; [reflexivity|]. split; [|intros x; reflexivity].
+  right. split; [|reflexivity]. unfold conj_fresh. cbn [cj_init cj_max cj_s]. split; [reflexivity|]. split; [reflexivity|].
+  split; [unfold tsearchers, tdenots; rewrite !map_length; reflexivity|].
+  intros i c S Hc HS. eapply tsearchers_fresh; eauto.
+Qed.
+
+(* the hypotheses are satisfiable on the example index (2 segments, a pending delete) *)
+Lemma ex_sn_wf : wf_sn ex_sn.
+Proof.
+  split; [discriminate|]. intros s [<-|[<-|[]]]; discriminate.
+Qed.
+
+Lemma search_exact_flat_example :
+  wf_sn ex_sn /\
+  run ex_sn copts_plain (flatq [(0, t_ab)] [(0, t_ba); (0, t_cab)] [(0, [122])] 1) = Ok [0; 2; 3].
+Proof.
+  split; [exact ex_sn_wf|].
+  rewrite search_exact_flat; [vm_compute; reflexivity|exact ex_sn_wf|lia|left; discriminate|simpl; lia|simpl; lia].
+Qed.
+
+(* ================= the same with the default options: the "conjunction" push-down ================= *)
+
+Lemma psorted_filter : forall (f : posting -> bool) l, psorted l -> psorted (filter f l).
+Proof.
+  intros f l. induction l as [| a l IH]; intros H; simpl; [exact I|].
+  pose proof (psorted_tail _ _ H) as Ht. destruct (f a); [|apply IH; exact Ht].
+  specialize (IH Ht). destruct (filter f l) as [| b r] eqn:E; [exact I|]. split; [|exact IH].
+  assert (Hb : In b (filter f l)) by (rewrite E; left; reflexivity). apply filter_In in Hb. destruct Hb as [Hb _].
+  eapply psorted_head_min; eauto.
+Qed.
+
+Lemma nth_map_seq {A} (g : nat -> A) n k d : (k < n)%nat -> nth k (map g (seq 0 n)) d = g k.
+Proof.
+  intros H. rewrite (nth_indep _ d (g O)) by (rewrite map_length, seq_length; exact H).
+  rewrite (map_nth g (seq 0 n) O k). rewrite seq_nth by exact H. reflexivity.
+Qed.
+
+(* a global number determines its segment and its local number *)
+Lemma segment_unique : forall offs N, offs_ok offs N -> forall k k' a b,
+  (k < length offs)%nat -> (k' < length offs)%nat ->
+  0 <= a -> a + offx offs N k < offx offs N (Datatypes.S k) ->
+  0 <= b -> b + offx offs N k' < offx offs N (Datatypes.S k') ->
+  a + offx offs N k = b + offx offs N k' -> k = k' /\ a = b.
+Proof.
+  intros offs N Hok k k' a b Hk Hk' Ha1 Ha2 Hb1 Hb2 E.
+  destruct (lt_eq_lt_dec k k') as [[Hlt|Heq]|Hgt].
+  - pose proof (offx_mono offs N Hok (Datatypes.S k) k' ltac:(lia) ltac:(lia)). lia.
+  - subst k'. split; [reflexivity|lia].
+  - pose proof (offx_mono offs N Hok (Datatypes.S k') k ltac:(lia) ltac:(lia)). lia.
+Qed.
+
+Section PushDown.
+  Variable sn : snapshot.
+  Hypothesis Hwf : wf_sn sn.
+  Variable musts : list (Z * list Z).
+  Hypothesis Hne : musts <> [].
+
+  Let D : Z -> bool := conj_S (tdenots sn musts).
+  Let its : list pit := map (fun ft => mk_pit sn (fst ft) (snd ft)) musts.
+
+  Definition pushed (it : pit) : pit :=
+    {| pi_segs := pi_segs it;
+       pi_iters := map (fun k => filter (fun p => forallb (fun l => zmem (p_num p) (pnums l)) (seg_column its k))
+                                        (nth k (pi_iters it) []))
+                       (seq 0 (length (pi_iters it)));
+       pi_offs := pi_offs it; pi_segoff := pi_segoff it; pi_curr := pi_curr it |}.
+
+  Lemma and_replace_tsearchers :
+    and_replace (tsearchers sn musts) =
+    map (fun ft => STerm (snd ft) false (pushed (mk_pit sn (fst ft) (snd ft)))) musts.
+  Proof.
+    unfold and_replace, tsearchers. rewrite map_map.
+    assert (Hits : flat_map (fun c : searcher => match c with STerm _ _ it => [it] | _ => [] end)
+                     (map (fun ft : Z * list Z => term_searcher sn copts_plain (fst ft) (snd ft)) musts) = its).
+    { unfold its. clear. induction musts as [| a l IH]; simpl; [reflexivity|]. rewrite IH. reflexivity. }
+    rewrite Hits. apply map_ext. intros ft. reflexivity.
+  Qed.
+
+  Lemma pushed_inv : forall ft, In ft musts ->
+    PInv (offsets sn) (total_docs sn) (pushed (mk_pit sn (fst ft) (snd ft))) D 0.
+  Proof.
+    intros ft Hft.
+    pose proof (offs_ok_snapshot sn Hwf) as Hok.
+    pose proof (iters_ok_snapshot sn (fst ft) (snd ft) Hwf) as [Hlen [Hsort Hrange]].
+    set (iters := map (seg_postings (fst ft) (snd ft)) sn) in *.
+    assert (Hnth : forall k, (k < length iters)%nat ->
+              nth_or (pi_iters (pushed (mk_pit sn (fst ft) (snd ft)))) k [] =
+              filter (fun p => forallb (fun l => zmem (p_num p) (pnums l)) (seg_column its k)) (nth_or iters k [])).
+    { intros k Hk. unfold pushed, mk_pit, nth_or. cbn [pi_iters]. fold iters.
+      exact (nth_map_seq (fun k0 => filter (fun p => forallb (fun l => zmem (p_num p) (pnums l)) (seg_column its k0)) (nth k0 iters []))
+                         (length iters) k [] Hk). }
+    assert (Hover : forall k, (length iters <= k)%nat -> nth_or (pi_iters (pushed (mk_pit sn (fst ft) (snd ft)))) k [] = []).
+    { intros k Hk. unfold nth_or. apply nth_overflow. unfold pushed, mk_pit. cbn [pi_iters]. fold iters.
+      rewrite map_length, seq_length. exact Hk. }
+    assert (Hsub : forall k p, In p (nth_or (pi_iters (pushed (mk_pit sn (fst ft) (snd ft)))) k []) -> In p (nth_or iters k [])).
+    { intros k p Hp. destruct (lt_dec k (length iters)) as [Hk|Hk].
+      - rewrite Hnth in Hp by exact Hk. apply filter_In in Hp. tauto.
+      - rewrite Hover in Hp by lia. destruct Hp. }
+    assert (Hit' : iters_ok (offsets sn) (total_docs sn) (pi_iters (pushed (mk_pit sn (fst ft) (snd ft))))).
+    { split; [unfold pushed, mk_pit; cbn [pi_iters]; rewrite map_length, seq_length; fold iters; exact Hlen|]. split.
+      - intros k. destruct (lt_dec k (length iters)) as [Hk|Hk].
+        + rewrite Hnth by exact Hk. apply psorted_filter. apply Hsort.
+        + rewrite Hover by lia. exact I.
+      - intros k p Hp. apply Hrange. apply Hsub. exact Hp. }
+    unfold PInv. split; [reflexivity|]. split; [exact Hok|]. split; [exact Hit'|]. split; [lia|]. split; [exact I|].
+    exists O. split; [cbn; lia|]. destruct Hok as [Hpos [H0 Hinc]]. split; [exact Hpos|]. split; [lia|].
+    split; [intros k Hk; cbn in Hk; lia|].
+    assert (Hok : offs_ok (offsets sn) (total_docs sn)) by (split; [exact Hpos|split; assumption]).
+    split.
+    - intros x [k [p [Hk [Hp ->]]]]. destruct (Hrange k p (Hsub k p Hp)) as [Hp0 _].
+      pose proof (offx_mono _ _ Hok O k ltac:(lia) ltac:(lia)). lia.
+    - intros x _. split.
+      + (* a member of the conjunction is visible in the pushed-down iterator *)
+        intros HD.
+        assert (Hall : forall ft', In ft' musts -> term_S sn (fst ft') (snd ft') x = true).
+        { intros ft' Hin. unfold D, conj_S in HD. destruct (tdenots sn musts) eqn:Et; [discriminate|]. rewrite <- Et in HD.
+          rewrite forallb_forall in HD. apply HD. unfold tdenots. apply in_map_iff. exists ft'. split; [reflexivity|exact Hin]. }
+        pose proof (proj1 (term_S_visible sn (fst ft) (snd ft) x Hwf) (Hall ft Hft)) as [k [p [Hk [Hp Hx]]]].
+        fold iters in Hp. exists k, p. split; [exact Hk|]. split; [|exact Hx].
+        rewrite Hnth by lia. apply filter_In. split; [exact Hp|]. apply forallb_forall. intros l Hl.
+        unfold seg_column, its in Hl. rewrite map_map in Hl. apply in_map_iff in Hl. destruct Hl as [ft' [<- Hin']].
+        apply zmem_In.
+        pose proof (proj1 (term_S_visible sn (fst ft') (snd ft') x Hwf) (Hall ft' Hin')) as [k' [q [Hk' [Hq Hx']]]].
+        destruct (Hrange k p Hp) as [Hp0 Hp1].
+        destruct (iters_ok_snapshot sn (fst ft') (snd ft') Hwf) as [_ [_ Hrange']]. destruct (Hrange' k' q Hq) as [Hq0 Hq1].
+        destruct (segment_unique _ _ Hok k k' (p_num p) (p_num q) ltac:(lia) ltac:(lia) Hp0 Hp1 Hq0 Hq1 ltac:(lia)) as [-> Epq].
+        unfold mk_pit. cbn [pi_iters]. unfold nth_or in Hq. unfold pnums. apply in_map_iff. exists q. split; [lia|exact Hq].
+      + (* and conversely *)
+        intros [k [p [Hk [Hp ->]]]]. rewrite Hnth in Hp by lia. apply filter_In in Hp. destruct Hp as [Hp Hall].
+        rewrite forallb_forall in Hall.
+        unfold D, conj_S. destruct (tdenots sn musts) eqn:Et; [apply map_eq_nil in Et; congruence|]. rewrite <- Et.
+        apply forallb_forall. intros S HS. unfold tdenots in HS. apply in_map_iff in HS. destruct HS as [ft' [<- Hin']].
+        apply (term_S_visible sn (fst ft') (snd ft') _ Hwf).
+        assert (Hcol : In (nth k (pi_iters (mk_pit sn (fst ft') (snd ft'))) []) (seg_column its k)).
+        { unfold seg_column, its. rewrite map_map. apply in_map_iff. exists ft'. split; [reflexivity|exact Hin']. }
+        specialize (Hall _ Hcol). apply zmem_In in Hall. unfold pnums in Hall. apply in_map_iff in Hall.
+        destruct Hall as [q [Eq Hq]]. exists k, q. split; [exact Hk|]. split; [exact Hq|lia].
+  Qed.
+End PushDown.
+
+Lemma compile_flat_default : forall sn musts shoulds nots ms,
+  (length shoulds <= 10)%nat -> (length nots <= 10)%nat -> (musts <> [] \/ shoulds <> []) ->
+  compile sn copts_default (flatq musts shoulds nots ms) =
+  Ok (mk_bool (match musts with
+               | [] => None
+               | [_] => Some (mk_conj (tsearchers sn musts))
+               | _ => Some (mk_conj (and_replace (tsearchers sn musts)))
+               end)
+              (match shoulds with [] => None | _ => Some (mk_disj_slice (tsearchers sn shoulds) ms) end)
+              (match nots with [] => None | _ => Some (mk_disj_slice (tsearchers sn nots) 1) end)).
+Proof.
+  intros sn musts shoulds nots ms Hs Hn Hne. unfold flatq. cbn [compile].
+  assert (Hcl : forall l,
+    (fix clist (qs : list query) : res (list searcher) :=
+       match qs with
+       | [] => Ok []
+       | q1 :: r => s1 <- compile sn copts_default q1 ;; ss <- clist r ;; Ok (s1 :: ss)
+       end) (map tq l) = Ok (tsearchers sn l)).
+  { induction l as [| a l IH]; [reflexivity|]. cbn [map]. rewrite IH. reflexivity. }
+  rewrite !Hcl. cbn [rbind].
+  assert (Hdisj : forall l m, (length l <= 10)%nat ->
+            new_disjunction sn copts_default (tsearchers sn l) m = mk_disj_slice (tsearchers sn l) m).
+  { intros l m Hl. unfold new_disjunction. cbn [co_score_none co_tv co_disj_un copts_default].
+    rewrite andb_false_r. cbn [andb].
+    assert (E : disjunction_heap_takeover <? Z.of_nat (length (tsearchers sn l)) = false).
+    { apply Z.ltb_ge. unfold tsearchers. rewrite map_length. unfold disjunction_heap_takeover. lia. }
+    rewrite E. reflexivity. }
+  assert (Hst : forall l, forallb is_sterm (tsearchers sn l) = true).
+  { induction l as [| a l IH]; [reflexivity|]. simpl. exact IH. }
+  assert (Hconj : forall l, new_conjunction sn copts_default (tsearchers sn l) =
+            if (1 <? length (tsearchers sn l))%nat then mk_conj (and_replace (tsearchers sn l)) else mk_conj (tsearchers sn l)).
+  { intros l. unfold new_conjunction. cbn [co_score_none co_tv co_conj co_conj_un copts_default].
+    rewrite !andb_false_r. cbn [andb]. rewrite Hst, !andb_true_r. reflexivity. }
+  destruct musts as [| m0 [| m1 mr]]; destruct shoulds as [| s0 sr]; destruct nots as [| n0 nr];
+    cbn [map]; try (destruct Hne; congruence);
+    try rewrite Hconj; try rewrite (Hdisj (s0 :: sr)) by exact Hs; try rewrite (Hdisj (n0 :: nr)) by exact Hn;
+    reflexivity.
+Qed.
+
+Lemma conj_S_const : forall (D : Z -> bool) (l : list (Z * list Z)) x, l <> [] ->
+  conj_S (map (fun _ => D) l) x = D x.
+Proof.
+  intros D [| a l] x Hne; [congruence|]. unfold conj_S. cbn [map forallb].
+  assert (H : forallb (fun s : Z -> bool => s x) (map (fun _ : Z * list Z => D) l) = true \/ D x = false).
+  { destruct (D x) eqn:E; [left|right; reflexivity]. clear Hne. induction l as [| b l IH]; simpl; [reflexivity|]. rewrite E. exact IH. }
+  destruct H as [H|H]; [rewrite H; apply andb_true_r|rewrite H; reflexivity].
+Qed.
+
+(* search_exact for boolean queries over term clauses with the default options *)
+Theorem search_exact_flat_default : forall sn musts shoulds nots ms,
+  wf_sn sn -> 0 <= ms -> (musts <> [] \/ shoulds <> []) ->
+  (length shoulds <= 10)%nat -> (length nots <= 10)%nat ->
+  run sn copts_default (flatq musts shoulds nots ms) = Ok (sem_numbers (flatq musts shoulds nots ms) sn).
+Proof.
+  intros sn musts shoulds nots ms Hwf Hms Hne Hls Hln.
+  unfold run. rewrite (compile_flat_default sn musts shoulds nots ms Hls Hln Hne). cbn [rbind].
+  apply run_flat_core; auto.
+  set (W := swidth _).
+  destruct musts as [| m0 [| m1 mr]].
+  - exact I.
+  - (* a single must clause: no push-down *)
+    assert (HW : (1 <= W)%nat) by (unfold W, mk_bool; cbn [swidth]; apply Nat.le_trans with 3%nat; [lia|apply Nat.le_max_l]).
+    unfold flat_Sm, opt_new. split; [apply conj_S_bounded; discriminate|].
+    split; [|unfold narrow, mk_conj; cbn [cj_s]; simpl; exact HW]. split; [lia|]. left.
+    eexists _, (tdenots sn [m0]). split; [reflexivity|]. split; [|intros x; reflexivity].
+    right. split; [|reflexivity]. unfold conj_fresh. cbn [cj_init cj_max cj_s]. split; [reflexivity|]. split; [reflexivity|].
+    split; [reflexivity|]. intros i c S Hc HS. eapply tsearchers_fresh; eauto.
+  - (* several must clauses: every child keeps only the documents all of them hold *)
+    set (musts := m0 :: m1 :: mr) in *.
+    assert (Hmne : musts <> []) by discriminate.
+    assert (Hlen : length (and_replace (tsearchers sn musts)) = length musts).
+    { rewrite (and_replace_tsearchers sn musts). apply map_length. }
+    assert (HW : (length musts <= W)%nat).
+    { unfold W, mk_bool. cbn [swidth]. unfold mk_conj at 1. cbn [swidth]. rewrite Hlen.
+      eapply Nat.le_trans; [|apply Nat.le_max_r]. eapply Nat.le_trans; [|apply Nat.le_max_l]. apply Nat.le_max_l. }
+    unfold flat_Sm, opt_new. fold musts. change (match musts with [] => None | _ :: _ => Some (conj_S (tdenots sn musts)) end)
+      with (Some (conj_S (tdenots sn musts))).
+    split; [apply conj_S_bounded; exact Hmne|].
+    split; [|unfold narrow, mk_conj; cbn [cj_s]; rewrite Hlen; exact HW]. split; [lia|]. left.
+    eexists _, (map (fun _ => conj_S (tdenots sn musts)) musts). split; [reflexivity|].
+    split; [|intros x; symmetry; apply conj_S_const; exact Hmne].
+    right. split; [|reflexivity]. unfold conj_fresh. cbn [cj_init cj_max cj_s]. split; [reflexivity|]. split; [reflexivity|].
+    split; [rewrite Hlen, map_length; reflexivity|].
+    intros i c S Hc HS. rewrite (and_replace_tsearchers sn musts) in Hc.
+    apply nth_error_map_inv in Hc. destruct Hc as [ft [Hft ->]].
+    apply nth_error_map_inv in HS. destruct HS as [ft' [_ ->]].
+    split; [apply conj_S_bounded; exact Hmne|].
+    unfold TInv. eexists _, _, _. split; [reflexivity|]. apply pushed_inv; [exact Hwf|exact Hmne|].
+    eapply nth_error_In; eauto.
 Qed.
